@@ -6,7 +6,9 @@ Directed by the models (Impl/Hmac.lean, Impl/Digest.lean, Impl/Kdf.lean):
     block sizes 64 / 128 / 72 / 104 / 136 / 144 of the legacy wrappers;
   * object flags: `computed` (legacy wrappers, BLAKE2 wrappers), `finished` (Hmac): second result, input after
     result, reset, block-multiple messages (where a lazily flushed buffer would show), wrong output buffer sizes;
-  * HKDF one-byte block counter: L around k*HashLen and around 255*HashLen; PBKDF2 loop structure c = 1 / 2 / > 2
+  * HKDF one-byte block counter: L around k*HashLen and around 255*HashLen; the PRK length check of `hkdf_expand`
+    (`assert!(prk.len() >= digest.output_bytes())`: 0, 1, HashLen-1 refused; HashLen, HashLen+1, 2*HashLen accepted);
+    PBKDF2 loop structure c = 1 / 2 / > 2
     and the partial last block; scrypt BlockMix interleaving (r = 1, odd r, r = 8), Integerify (N up to 2^10),
     p > 1 (the scratch vectors are reused), parameter constraints of ScryptParams::new.
 """
@@ -250,7 +252,17 @@ def gen_C10(tier, rng):
         for L in Ls:
             prk = rng.rbytes(H if rng.randrange(4) else [0, 1, B, B + 1][rng.randrange(4)])
             info = rng.rbytes([0, 10, 80, B, 3][rng.randrange(5)])
-            yield (f"kdf.hkdf_expand {d} {hx(prk)} {hx(info)} {L}", f"hkdf.expand.{d}.{'ok' if L <= 255 * H else 'over'}")
+            # the documented domain: |PRK| >= HashLen ("prk - The pseudorandom key of at least `digest.output_bytes()` octets",
+            # RFC 5869 2.3) and L <= 255*HashLen; everything else must be refused (PANIC)
+            cls = "shortprk" if len(prk) < H else ("ok" if L <= 255 * H else "over")
+            yield (f"kdf.hkdf_expand {d} {hx(prk)} {hx(info)} {L}", f"hkdf.expand.{d}.{cls}")
+        # PRK lengths one below / at / one above HashLen (and 0, 1, 2*HashLen), for output lengths inside and beyond the limit
+        for pl in (0, 1, H - 1, H, H + 1, 2 * H):
+            for L in ((1, H + 1) if quick else (0, 1, H, H + 1, 255 * H, 255 * H + 1)):
+                cls = "shortprk" if pl < H else ("ok" if L <= 255 * H else "over")
+                yield (f"kdf.hkdf_expand {d} {hx(rng.rbytes(pl))} {hx(rng.rbytes(4))} {L}", f"hkdf.expand.{d}.prklen.{cls}")
+    # the witness line of the theorems `hkdf_expand_old_accepts_short_prk` (Props/C10/Kdf.lean, Props/C20/Refusal.lean): a one-byte PRK
+    yield ("kdf.hkdf_expand sha256 0b 696e666f 33", "hkdf.expand.sha256.prklen.shortprk")
     # RFC 5869 test case 1 and 3 (SHA-256), 4 (SHA-1)
     yield (f"kdf.hkdf_extract sha256 000102030405060708090a0b0c {'0b' * 22} 32", "hkdf.vector")
     yield ("kdf.hkdf_expand sha256 077709362c2e32df0ddc3f0dc47bba6390b6c73bb50f9c3122ec844ad7c2b3e5 f0f1f2f3f4f5f6f7f8f9 42", "hkdf.vector")
@@ -397,16 +409,19 @@ def gen_C20(tier, rng):
                 for second in ("i00", "i-", "R", "W", f"W{ol}", f"W{ol + 1}", "W0", "W100000", "r;i00;R", "k6b;i00;R"):
                     kind = "state.blake2mac.accept" if second[0] in "rk" else "state.blake2mac.refuse"
                     yield (f"mac.{v} {ol} 6b6579 i616263;{first};{second}", kind)
-    # `hkdf_expand` documents "prk … of at least digest.output_bytes() octets" but does not check it: a shorter PRK is
-    # accepted (used as the HMAC key) — recorded as what the code does, identically in every build profile
+    # `hkdf_expand` documents "prk … of at least digest.output_bytes() octets" (RFC 5869 2.3 "PRK  a pseudorandom key of at
+    # least HashLen octets"): a shorter PRK must be refused (`assert!(prk.len() >= digest.output_bytes())`, PANIC), never
+    # answered with a value; HashLen, HashLen + 1 and 2*HashLen are accepted
     for d in ("sha256", "sha1", "sha512"):
         H = out_of(d)
-        for pl in (0, 1, H - 1, H, H + 1):
-            yield (f"kdf.hkdf_expand {d} {hx(rng.rbytes(pl))} {hx(rng.rbytes(3))} {H + 1}", "accept.hkdf.prklen")
+        for pl in (0, 1, H - 1, H, H + 1, 2 * H):
+            yield (f"kdf.hkdf_expand {d} {hx(rng.rbytes(pl))} {hx(rng.rbytes(3))} {H + 1}",
+                   "refuse.hkdf.prklen" if pl < H else "accept.hkdf.prklen")
         # iteration counts next to the refused 0; output lengths around one block
         for c in (0, 1, 2):
             for dk in (0, 1, H - 1, H, H + 1):
                 yield (f"kdf.pbkdf2 {d} 70 73 {c} {dk}", "limit.pbkdf2.c0" if c == 0 else "accept.pbkdf2")
+    yield ("kdf.hkdf_expand sha256 0b 696e666f 33", "refuse.hkdf.prklen")   # the line of the witness theorem (one-byte PRK)
     # scrypt output length: 0 refused, 1 / 32 / 33 accepted (the upper limit (2^32-1)*32 cannot be allocated here)
     for dk in (0, 1, 31, 32, 33):
         yield (f"kdf.scrypt 70 73 2 1 1 {dk}", "limit.scrypt.dklen0" if dk == 0 else "accept.scrypt.dklen")
